@@ -7,3 +7,12 @@ Theorem C13_failure_is_atomic `{Sig} : forall E n ks k st e st',
   atomically E (kcall_prog n ks k) st = (RErr e, st') -> st' = st.
 Proof. intros E n ks k. exact (atomically_err_noop E (kcall_prog n ks k)). Qed.
 Print Assumptions C13_failure_is_atomic.
+
+(** The identity behind the "areas add up" clause, for every polygon (convex or not): the triangles of the fan
+    from the first corner add up to the polygon's signed (shoelace) area. Integer coordinates; binary64 values
+    are dyadic, i.e. integers up to a common scaling. *)
+From Coq Require Import ZArith.
+From HC Require Import Geom.Shoelace.
+Theorem C13_fan_tiles_area : forall apex rest, area2 (apex :: rest) = fan apex rest.
+Proof. exact fan_tiles_area. Qed.
+Print Assumptions C13_fan_tiles_area.
